@@ -200,7 +200,7 @@ def core_minmax(fn, pts, fam, sub, ev):
         exact = onp.array([s[2] for s in sub])
         subidx = onp.zeros(len(sub), int)
         nsub, qlab = 1, [0]
-    else:
+    else:                        # 'off': both arguments shifted by M; 'dis': only x shifted (disparate magnitudes)
         SC = onp.ones((1, len(sub)))
         M = W[:, None] * onp.array([sg * 10.0 ** q for q, sg in sub])[None, :]
         exact = onp.ones(len(sub), bool)
@@ -211,7 +211,7 @@ def core_minmax(fn, pts, fam, sub, ev):
     T = len(px)
     shp = (P, SC.shape[1], T)
     x = pert((X[:, None] * SC + M)[:, :, None], px[None, None, :])
-    y = pert((Y[:, None] * SC + M)[:, :, None], py[None, None, :])
+    y = pert((Y[:, None] * SC + (0 * M if fam == "dis" else M))[:, :, None], py[None, None, :])
     w = pert((W[:, None] * SC + 0 * M)[:, :, None], pw[None, None, :])
     v, (gx, gy) = ev(fn, [x.ravel(), y.ravel(), w.ravel()])
     v2, (g2x, g2y) = ev(fn, [y.ravel(), x.ravel(), w.ravel()])
@@ -224,8 +224,14 @@ def core_minmax(fn, pts, fam, sub, ev):
     aD = DTOL + 8 * U * S / (2 * wl)
     ac = cls3(onp.abs(xl - yl), wl)
     orv = (v0[:, None] * SC.astype(LD) + M.astype(LD))[:, :, None]
+    # on and outside the band the sharp value is one of the arguments: "equals" is judged relative to the RESULT
+    # (2 ulp of it), not to the larger argument -- an error of one ulp of a huge discarded argument is not equality
+    aQ = 2 * U * onp.abs(ref) + LD(onp.finfo(onp.float64).tiny)     # XLA flushes subnormals to zero
+    if fam == "dis":
+        orv = ref
+        aV = onp.where(ac >= 1, aQ, aV)
     codes = dict(
-        ub=cmp3(v, ref, aV), qt=cmp3(onp.abs(v.astype(LD) - ref), wl / 4, aV), eq=cmp3(v, ref, aE),
+        ub=cmp3(v, ref, aV), qt=cmp3(onp.abs(v.astype(LD) - ref), wl / 4, aV), eq=cmp3(v, ref, aQ),
         sy=cmp3(v, v2, aE) | cmp3(gx, g2y, aD) | cmp3(gy, g2x, aD),
         vj=cmp3(spread(v), 0, 2 * aV), dj=cmp3(spread(gx), 0, aD) | cmp3(spread(gy), 0, aD),
         dv=cmp3(v, orv, aV + aE), dd=cmp3(gx, d1[:, None, None], aD) | cmp3(gy, d2[:, None, None], aD))
@@ -457,6 +463,8 @@ def subs_for(fn, fam, mode, tier):
     if fam == "off":
         qs = range(1, 11)
         return [[q, sg] for q in qs for sg in (1, -1)]
+    if fam == "dis":
+        return [[q, sg] for q in (2, 5, 8, 11, 14, 17, 20) for sg in (1, -1)]
     sc = lin_decades() if fn == "lin" else lat_scales()
     if mode == "single":
         sc = [s for s in sc if s[0] in ("1e-5", "1e0", "1e5", "2^-17", "1e-9", "1e-4")]
@@ -503,6 +511,8 @@ def build_units(obs, tier, rng):
             off = [o for o in pts if o["p"][1] == 0]
             for c in chunks(off, max(8, 1500000 // (27 * 20 * 2))):
                 units.append(dict(fn=fn, fam="off", mode="vmap", pts=c, var="", N=N, sub=subs_for(fn, "off", "vmap", tier)))
+            for c in chunks(off, max(8, 1500000 // (27 * 14 * 2))):
+                units.append(dict(fn=fn, fam="dis", mode="vmap", pts=c, var="", N=N, sub=subs_for(fn, "dis", "vmap", tier)))
     return units
 
 
@@ -516,11 +526,13 @@ def count_clauses(rep, fn, fam, res):
                 n = n_all * res.get("ncv", 1)
             rep.count_clause(clause, n)
             d = rep.coverage.setdefault("clauses_evaluated_by_function", {})
-            k = clause + "@" + fn + ("/off" if fam == "off" else "")
+            k = clause + "@" + fn + ("/" + fam if fam in ("off", "dis") else "")
             d[k] = d.get(k, 0) + n
 
 
 def regime(fam, q):
+    if fam == "dis":
+        return "disparate_magnitudes"
     if fam != "off":
         return "lattice"
     return "arguments_ge_1e4_widths" if q >= 4 else "arguments_le_1e3_widths"
@@ -539,6 +551,8 @@ def main(tier, replay=None):
         "1/l smooth_linear)*u*S",
         "smooth_linear: l = (j/N)*10^k, k = -9..0, l <= 1/2 (the two caps overlap for l > 1/2); the switch points are "
         "xi = l and xi = fl(1-l); friction mu = m/4, m = 1..3, sPerp = s*(1), s*(1,0), s*(0,1), s*(0.6,0.8)",
+        "disparate family (min/max): x = d + e*10^q (q = 2..20 widths), y and the width of lattice size: one argument "
+        "dwarfs the other; on and outside the band equality is judged to 2 ulp of the RESULT in every family",
         "offset family (min/max): x = M + d, y = M, M = +-e*10^q, q = 1..10, exact integer-valued floats; oracle "
         "smin(x+t, y+t) = smin(x, y) + t (invariant Translate of SmoothFn.tla)",
         "convexity of the friction potential: three-point test along and across the slip direction with steps "
@@ -624,7 +638,7 @@ def main(tier, replay=None):
         e = traces[tid_ - 1]["ev"][l - 1]
         orc = [o for o in unit["pts"] if list(o["p"]) == list(e["p"])][0]
         sub = unit["sub"]
-        if unit["fam"] == "off":
+        if unit["fam"] in ("off", "dis"):
             sub = [s for s in sub if s[0] == e["q"]]
         case = dict(fn=unit["fn"], fam=unit["fam"], mode=unit["mode"], var=unit["var"], p=e["p"], q=e["q"],
                     ac=e["ac"], sub=sub, oracle=orc, tier=tier_of_case, regime=regime(unit["fam"], e["q"]))
